@@ -200,6 +200,12 @@ def gen_cases(rnd, tier):
                 lits.append(("stream", obs_stream(cut(stream, [c]))))
             lits.append(("stream", obs_stream([stream[i : i + 1] for i in range(len(stream))])))
             lits.append(("stream", obs_stream([stream])))
+            # two messages with the same header (system bytes, stream, function, W-bit: a peer that repeats itself, or reuses system bytes)
+            # and different bodies: two deliveries, each with its own body
+            h_same = rand_hdr(rnd)
+            twice = frame_bytes(h_same, c16.body_of(3, rnd)) + b"".join(frames[:1]) + frame_bytes(h_same, c16.body_of(5, rnd))
+            lits.append(("stream", obs_stream([twice])))
+            lits.append(("stream", obs_stream([twice[i : i + 7] for i in range(0, len(twice), 7)])))
             # a frame that is not an HSMS message in front of / between the frames: a 14-byte frame with an undefined SType, a frame of 4
             # bytes (too short for a header) - the frames behind it are complete messages
             if len(frames) >= 1:
